@@ -28,11 +28,11 @@ Definition branch_rows (s : iso) (branch : option string) : res (list (N * N * b
 Definition p_of (r : N * N * bool) : N := fst (fst r).
 Definition l_of (r : N * N * bool) : N := snd (fst r).
 
-(* ---- limits: `if limits and any(limits): ret.loc[ret.between(lo or -inf, hi or +inf)]` (inclusive) *)
+(* ---- limits: `if limits and any(lim is not None for lim in limits): ret.loc[ret.between(lo or -inf, hi or +inf)]` (inclusive) *)
 Definition limits_t := option (option N * option N).
 Definition num_truthy (x : option N) : bool := match x with Some v => negb (neqb v (nofQ 0)) | None => false end.
 Definition limits_active (l : limits_t) : bool :=
-  match l with Some (a, b) => num_truthy a || num_truthy b | None => false end.
+  match l with Some (a, b) => (match a with Some _ => true | None => false end) || (match b with Some _ => true | None => false end) | None => false end.
 Definition between (lo hi : option N) (x : N) : bool :=
   (match lo with Some a => nleb a x | None => true end) && (match hi with Some b => nleb x b | None => true end).
 Definition select_limits (l : limits_t) (xs : list N) : list N :=
@@ -187,7 +187,7 @@ Definition iso_pressure_at (s : iso) (loading : list N) (branch kind : option st
   sbind s1 (pressure_at_with s1 loading pu pm lu lb mu mb) (fun p => SOk (s1, p))).
 
 (* ---- spreading_pressure_at(pressure, branch, units..., interp_fill): OUTCOME only (the value is the subject of C11).
-        The range guard consults whatever interpolator happens to be cached (pointisotherm.py:1249-1251). *)
+        The range guard refuses pressures above the data range when no fill rule is passed (pointisotherm.py:1249). *)
 Fixpoint lmax (d : N) (l : list N) : N := match l with [] => d | x :: r => let m := lmax d r in if nltb m x then x else m end.
 Fixpoint lmin (d : N) (l : list N) : N := match l with [] => d | x :: r => let m := lmin d r in if nltb x m then x else m end.
 Definition iso_spreading_outcome (s : iso) (p : N) (branch : option string) (fill : fillv N)
@@ -197,8 +197,8 @@ Definition iso_spreading_outcome (s : iso) (p : N) (branch : option string) (fil
   match ps with
   | [] => SErr ValueError s
   | p0 :: _ =>
-    let guard := match l_interpolator s with Some c => match c_fill c with FNone => true | _ => false end | None => false end in
-    if guard && (nltb (lmax p0 ps) p || nltb p (lmin p0 ps)) then SErr CalculationError s
+    let guard := match fill with FNone => true | _ => false end in     (* `if interp_fill is None and pressure > pressures.max()` *)
+    if guard && nltb (lmax p0 ps) p then SErr CalculationError s
     else if Nat.eqb (length (filter (fun x => nltb x p) ps)) 0 then SOk (s, tt)   (* Henry segment: henry_const * p *)
     else mbind (iso_loading_at s [p] branch (Some "linear") fill pu pm lu lb mu mb) (fun '(s1, _) => SOk (s1, tt))
   end)).
